@@ -213,7 +213,7 @@ pub fn cases_for(prop: &str, tier: &str, seed: u64, shard: (usize, usize)) -> (V
         }
         "C01" => {
             let n = budget(tier, 2400, 60000) / shard.1;
-            let all = format!("(plan {})", crate::op_validate::ALL_RULES.join(" "));
+            let all = format!("(plan {})", crate::op_validate::default_codes().join(" "));
             for i in 0..n {
                 let si_idx = rng.below(pool.len() - 1);
                 let depth = 2 + rng.below(4);
@@ -236,7 +236,7 @@ pub fn cases_for(prop: &str, tier: &str, seed: u64, shard: (usize, usize)) -> (V
         }
         "C02" => {
             let n = budget(tier, 1500, 40000) / shard.1;
-            let all = format!("(plan {})", crate::op_validate::ALL_RULES.join(" "));
+            let all = format!("(plan {})", crate::op_validate::default_codes().join(" "));
             for i in 0..n {
                 let si_idx = rng.below(pool.len() - 1);
                 let depth = 2 + rng.below(3);
@@ -271,7 +271,7 @@ pub fn cases_for(prop: &str, tier: &str, seed: u64, shard: (usize, usize)) -> (V
             family_random_docs(&mut tmp, &pool, &mut rng, n, "purity", &format!("h{}x", shard.0), false);
             let minimal = pool.iter().position(|s| s.name == "minimal").unwrap();
             for mut c in tmp {
-                let plan: Vec<&str> = if rng.pct(70) { crate::op_validate::ALL_RULES.to_vec() } else { random_plan(&mut rng) };
+                let plan: Vec<&str> = if rng.pct(70) { crate::op_validate::default_codes() } else { random_plan(&mut rng) };
                 let plan = if plan.is_empty() { vec!["KnownTypeNames"] } else { plan };
                 let mut extra = vec![format!("(plan {})", plan.join(" "))];
                 // the history: 2..8 other documents on the same schema, valid, invalid and cyclic ones
